@@ -108,7 +108,7 @@ fn write_replay_and_exit(
     });
     let rf = ReplayFile {
         property: prop,
-        engine: "parsim".into(),
+        engine: if cfg!(feature = "experimental") { "parsim-exp".into() } else { "parsim".into() },
         verif_seed: seed,
         run_index,
         sched_index,
@@ -501,7 +501,16 @@ fn run_workload(plan: &Plan, w: &Workload, run_index: u64, seed: u64, cov: &mut 
             sched_index: u64::MAX - 1,
         });
     }
-    let nsched = if fixed.is_some() { 1 } else { plan.scheds };
+    // the long classes (more than 65536 frames; 2^32 samples) can only afford a few schedules each
+    let nsched = if fixed.is_some() {
+        1
+    } else if w.synthetic_silence {
+        1
+    } else if w.nfull > 20_000 {
+        plan.scheds.min(2)
+    } else {
+        plan.scheds
+    };
     for s in 0..nsched {
         let (policy, sseed, replay) = match fixed {
             Some(f) => (f.policy.clone(), f.seed, f.choices.clone()),
